@@ -155,7 +155,11 @@ async def _async_history(seed: int, udp: bool, directed: int | None = None, real
 
             async def handle(self, client: Any) -> Any:
                 req = yield
-                await client.send_packet(req)
+                if req == "big":
+                    # an answer the peer does not read: the handler is suspended in send_packet() when the server stops
+                    await client.send_packet("x" * 6_000_000)
+                else:
+                    await client.send_packet(req)
 
         def make_t(*a: Any, **kw: Any) -> list[Any]:
             lst = memtransport.MemListener(backend, extra=harness.socket_extra(lsock) if False else _listener_extra(lsock))
@@ -184,7 +188,7 @@ async def _async_history(seed: int, udp: bool, directed: int | None = None, real
         """Clients of the running server: one whose handler waits for a request, one in the middle of a frame, one UDP peer mid-handler."""
         if real:
             addr = server.get_addresses()[0]
-            for kind in ("idle", "half_frame"):
+            for kind in ("idle", "half_frame") if udp else ("idle", "half_frame", "stalled"):
                 c = socket.socket(socket.AF_INET, socket.SOCK_DGRAM if udp else socket.SOCK_STREAM)
                 c.setblocking(False)
                 try:
@@ -197,6 +201,8 @@ async def _async_history(seed: int, udp: bool, directed: int | None = None, real
                         c.send(b"hello%d\n" % k)
                 elif kind == "half_frame":
                     asyncio.get_running_loop().call_later(0.05, lambda c=c: c.fileno() != -1 and c.send(b"incomplete requ"))
+                elif kind == "stalled":
+                    asyncio.get_running_loop().call_later(0.05, lambda c=c: c.fileno() != -1 and c.send(b"big\n"))
             return
         lst = listeners[-1]
         if udp:
@@ -280,15 +286,22 @@ async def _async_history(seed: int, udp: bool, directed: int | None = None, real
         ev("end")
     lsock.close()
     if real_clients and not udp and events and events[-1]["ev"] == "end":
-        # every connection of a server that stopped serving has been closed by it: the peers read the end of the stream (or a reset)
+        # every connection of a server that stopped serving has been closed by it: the peers read the end of the stream (or a reset).
+        # (a peer that had stopped reading first has to read what the server's closing transport still flushes: the loop keeps running)
         for c in real_clients:
-            try:
-                while c.recv(1024):
-                    pass
-            except BlockingIOError:
+            closed = False
+            for _ in range(400):
+                try:
+                    if not c.recv(1 << 20):
+                        closed = True
+                        break
+                except BlockingIOError:
+                    await asyncio.sleep(0.01)
+                except OSError:
+                    closed = True
+                    break
+            if not closed:
                 events[-1] = {"ev": "client_left_open", "a": 0, "out": "", "serving": False, "listening": False}
-            except OSError:
-                pass
     for c in real_clients:
         c.close()
     if client_sock is not None:
@@ -346,10 +359,19 @@ def _standalone_history(scenario: str) -> dict[str, Any]:
         listeners.append(lst)
         return [lst]
 
-    backend.tcp_listeners_factory = make
-    server = StandaloneTCPNetworkServer("127.0.0.1", 0, StreamProtocol(StringLineSerializer()), H(), backend=backend)
+    real = scenario == "restart_same_port"
+    port = 0
+    if real:
+        # the listeners the asyncio backend builds, on a port chosen beforehand: every serve_forever() binds it again
+        port = lsock.getsockname()[1]
+        lsock.close()
+    else:
+        backend.tcp_listeners_factory = make
+    server = StandaloneTCPNetworkServer("127.0.0.1", port, StreamProtocol(StringLineSerializer()), H(), backend=backend)
 
     def obs() -> dict[str, bool]:
+        if real:
+            return {"serving": bool(server.is_serving()), "listening": bool(server.get_sockets())}
         return {"serving": bool(server.is_serving()), "listening": any(not lst.is_closing() for lst in listeners)}
 
     def ev(kind: str, a: int = 0, out: str = "", observe: bool = False) -> None:
@@ -493,6 +515,31 @@ def _standalone_history(scenario: str) -> dict[str, Any]:
                 hang = True
             ev("probe", observe=True)
             close(3)
+        elif scenario == "restart_same_port":
+            for _round in range(3):
+                spawn(serve, 1)
+                if not wait_up(1):
+                    break
+                # a connection that the server will close first (its port keeps the connection in TIME_WAIT afterwards)
+                c = socket.create_connection(("127.0.0.1", port), timeout=5)
+                c.sendall(b"hello\n")
+                buf = b""
+                while not buf.endswith(b"\n"):
+                    d = c.recv(100)
+                    if not d:
+                        break
+                    buf += d
+                shutdown(3)
+                threads[-1].join(5)
+                try:
+                    c.settimeout(5)
+                    while c.recv(100):
+                        pass
+                except OSError:
+                    pass
+                c.close()
+                ev("probe", observe=True)
+            close(3)
         elif scenario == "shutdown_before_serve":
             shutdown(2)
             spawn(serve, 1)
@@ -517,6 +564,7 @@ def _standalone_history(scenario: str) -> dict[str, Any]:
 
 
 STANDALONE = [
+    "restart_same_port",
     "full_cycle",
     "close_during_setup",
     "concurrent_shutdowns",
